@@ -7,6 +7,7 @@ Local Open Scope Z_scope.
 Arguments stat_inc : simpl never.
 Arguments vol_usage : simpl never.
 Arguments set_slot : simpl never.
+Arguments csum : simpl never.
 
 Definition runs (s : state) (l : list op) : state := fold_left (fun s o => fst (step s o)) l s.
 
@@ -463,8 +464,8 @@ Proof.
     apply Hsame; try reflexivity.
     + rewrite !set_slot_vols. unfold sb, sa. cbn [vols with_mets with_vols].
       rewrite !vupd_vupd by reflexivity. apply vupd_ext. intros x. unfold wr; cbn.
-      f_equal. lia.
-    + unfold sb, sa; cbn. lia.
+      destruct x; unfold set_used, set_slots; cbn. f_equal. lia.
+    + unfold sb, sa, set_slot; cbn. lia.
   - apply N.eqb_neq in Ev.
     destruct (vol_usage v (-1) (set_slot tv ti (Some r) (set_slot v idx None s))) as [s2| |] eqn:U1; cbn [bind]; try discriminate.
     intros U2.
@@ -472,19 +473,277 @@ Proof.
     apply vol_usage_ok in U2 as [x2 [_ [_ [Hv2 [Hm2 [_ [Ht2 Hc2]]]]]]].
     apply Hsame.
     + rewrite Hv2, Hv1, !set_slot_vols. unfold sb, sa. cbn [vols with_mets with_vols].
-      (* normalise both sides to  vupd tv F (vupd v G (vols s)) *)
       rewrite (vupd_comm v tv) by (auto; reflexivity).
-      rewrite vupd_vupd by reflexivity.
-      rewrite (vupd_comm tv v) by (auto; reflexivity).
-      rewrite vupd_vupd by reflexivity.
-      rewrite (vupd_comm v tv) by (auto; reflexivity).
-      rewrite vupd_vupd by reflexivity.
-      reflexivity.
-    + rewrite Hm2, Hm1. unfold sb, sa; cbn. lia.
+      rewrite !vupd_vupd by reflexivity. reflexivity.
+    + rewrite Hm2, Hm1. unfold sb, sa, set_slot; cbn. lia.
     + rewrite Hm2, Hm1. reflexivity.
     + rewrite Hm2, Hm1. reflexivity.
     + rewrite Hm2, Hm1. reflexivity.
     + rewrite Hm2, Hm1. reflexivity.
     + rewrite Ht2, Ht1. reflexivity.
     + rewrite Hc2, Hc1. reflexivity.
+Qed.
+
+Lemma slots_of_get v s j r : inv s -> In (j, Some r) (slots_of v s) ->
+  exists vl, vget v (vols s) = Some vl /\ sget j (vslots vl) = Some (Some r).
+Proof.
+  intros I. unfold slots_of. destruct (vget v (vols s)) as [vl|] eqn:G; [|cbn; tauto].
+  intros Hin. exists vl; split; auto. apply in_sget; auto. apply keys_nodup.
+  pose proof (inv_vol s I) as HF. rewrite Forall_forall in HF. apply HF. now apply (vget_in v _ vl).
+Qed.
+
+Lemma inv_migrate fuel : forall v start index calls mig fail s,
+  inv s -> inv (fst (migrate fuel v start index calls mig fail s)).
+Proof.
+  induction fuel as [|f IH]; intros v start index calls mig fail s I; cbn [migrate]; [exact I|].
+  destruct (next_occ index (slots_of v s) None) as [[idx r]|] eqn:Nx.
+  2:{ destruct calls; exact I. }
+  destruct (mig_has_target s v start); cbn [negb].
+  2:{ destruct calls; exact I. }
+  destruct calls as [|[[fidx to] ok] rest]; [exact I|].
+  destruct ((fidx =? idx)%N && mig_valid_target s v start to) eqn:V; cbn [negb]; [|exact I].
+  apply Bool.andb_true_iff in V as [_ V].
+  destruct ok; [|apply IH; exact I].
+  destruct (mig_move v idx r to s) as [s1| |] eqn:M; try exact I.
+  apply IH.
+  apply next_occ_in in Nx as [Nx|Nx]; [discriminate|].
+  destruct (slots_of_get v s idx r I Nx) as [vl [G S]].
+  destruct (mig_valid_slot s v start to V) as [tl [Gt St]].
+  exact (inv_mig_move v idx r to s s1 vl tl I G S Gt St M).
+Qed.
+
+Lemma inv_migrate_one v start idx to ok s s' : inv s -> migrate_one v start idx to ok s = Ok s' -> inv s'.
+Proof.
+  intros I. unfold migrate_one.
+  destruct (sget idx (slots_of v s)) as [[r|]|] eqn:S; try (now intros [= <-]).
+  destruct (mig_valid_target s v start to && ok) eqn:V; [|now intros [= <-]].
+  apply Bool.andb_true_iff in V as [V _]. intros M.
+  apply sget_in in S. destruct (slots_of_get v s idx r I S) as [vl [G S']].
+  destruct (mig_valid_slot s v start to V) as [tl [Gt St]].
+  exact (inv_mig_move v idx r to s s' vl tl I G S' Gt St M).
+Qed.
+
+(** * Temporary storage *)
+Lemma inv_refs s s' :
+  inv s -> vols s' = vols s ->
+  mTotal (mets s') = mTotal (mets s) -> mPhys (mets s') = mPhys (mets s) -> mLost (mets s') = mLost (mets s) ->
+  mContract (mets s') = csum (cons s') -> mTemp (mets s') = Z.of_nat (length (temps s')) -> inv s'.
+Proof.
+  intros [I1 I2 I3 I4 I5 I6 I7 I8] E1 E2 E3 E4 E5 E6.
+  constructor; rewrite ?E1, ?E2, ?E3, ?E4; auto.
+Qed.
+
+Lemma inv_add_temps l s s' : inv s -> add_temps l s = Ok s' -> inv s'.
+Proof.
+  intros I. unfold add_temps. destruct (negb _); [discriminate|].
+  destruct (stat_inc _ _) as [m| |] eqn:S; cbn [bind]; try discriminate. intros [= <-].
+  apply stat_inc_ok in S; subst m. apply (inv_refs s); cbn; auto.
+  - apply (inv_contract s I).
+  - rewrite app_length, (inv_temp s I). lia.
+Qed.
+
+Lemma inv_add_temp1 r e s s' : inv s -> add_temp1 r e s = Ok s' -> inv s'.
+Proof.
+  intros I. unfold add_temp1. destruct (negb _); [discriminate|].
+  destruct (stat_inc _ _) as [m| |] eqn:S; cbn [bind]; try discriminate. intros [= <-].
+  apply stat_inc_ok in S; subst m. apply (inv_refs s); cbn; auto.
+  - apply (inv_contract s I).
+  - rewrite app_length, (inv_temp s I). cbn. lia.
+Qed.
+
+Lemma inv_expire_temp h s s' : inv s -> expire_temp h s = Ok s' -> inv s'.
+Proof.
+  intros I. unfold expire_temp.
+  destruct (stat_inc _ _) as [m| |] eqn:S; cbn [bind]; try discriminate. intros [= <-].
+  apply stat_inc_ok in S; subst m. apply (inv_refs s); cbn; auto.
+  - apply (inv_contract s I).
+  - rewrite (inv_temp s I). lia.
+Qed.
+
+Lemma del_nth_t_length i l : (i < length l)%nat -> length (del_nth_t i l) = (length l - 1)%nat.
+Proof.
+  revert i; induction l as [|a t IH]; intros i; cbn; [lia|].
+  destruct i; cbn; [lia|]. intros H. rewrite IH; lia.
+Qed.
+
+Lemma del_nth_length i l : (i < length l)%nat -> length (del_nth i l) = (length l - 1)%nat.
+Proof.
+  revert i; induction l as [|a t IH]; intros i; cbn; [lia|].
+  destruct i; cbn; [lia|]. intros H. rewrite IH; lia.
+Qed.
+
+Lemma inv_drop_temp pos h s s' : inv s -> drop_temp pos h s = Ok s' -> inv s'.
+Proof.
+  intros I. unfold drop_temp.
+  destruct (nth_error (temps s) (N.to_nat pos)) as [t|] eqn:E; [|now intros [= <-]].
+  destruct (temp_live h t); [now intros [= <-]|].
+  destruct (stat_inc _ _) as [m| |] eqn:S; cbn [bind]; try discriminate. intros [= <-].
+  apply stat_inc_ok in S; subst m. apply (inv_refs s); cbn; auto.
+  - apply (inv_contract s I).
+  - assert (H : (N.to_nat pos < length (temps s))%nat) by (apply nth_error_Some; congruence).
+    rewrite del_nth_t_length, (inv_temp s I) by exact H. lia.
+Qed.
+
+(** * Contracts *)
+Lemma inv_add_contract c v2 e n s s' : inv s -> add_contract c v2 e n s = Ok s' -> inv s'.
+Proof.
+  intros I. unfold add_contract. destruct (cget c v2 (cons s)); [discriminate|]. intros [= <-].
+  apply (inv_refs s); cbn; auto.
+  - rewrite csum_app, (inv_contract s I). unfold csum; cbn. lia.
+  - apply (inv_temp s I).
+Qed.
+
+Lemma inv_reject h s : inv s -> inv (reject h s).
+Proof.
+  intros I. apply (inv_refs s); cbn; auto.
+  - rewrite csum_map_rej, (inv_contract s I); [reflexivity|].
+    intros c; destruct (cneg c <? h)%N; reflexivity.
+  - apply (inv_temp s I).
+Qed.
+
+Lemma set_nth_length i x l : length (set_nth i x l) = length l.
+Proof. revert i; induction l as [|a t IH]; intros i; destruct i; cbn; auto. Qed.
+
+Lemma apply_changes_len kn chs : forall roots m roots' m',
+  apply_changes kn roots m chs = Ok (roots', m') ->
+  m' = m + Z.of_nat (length roots') - Z.of_nat (length roots).
+Proof.
+  induction chs as [|ch t IH]; intros roots m roots' m'; cbn [apply_changes].
+  - intros [= <- <-]; lia.
+  - destruct ch as [r|n|r i|i j].
+    + destruct (negb (mem r kn)); [discriminate|].
+      destruct (stat_inc m 1) as [m1| |] eqn:S; cbn [bind]; try discriminate.
+      apply stat_inc_ok in S; subst m1. intros H. apply IH in H. rewrite app_length in H. cbn in H. lia.
+    + destruct (len roots <? n)%N eqn:E; [discriminate|].
+      destruct (stat_inc m (- Z.of_N n)) as [m1| |] eqn:S; cbn [bind]; try discriminate.
+      apply stat_inc_ok in S; subst m1. intros H. apply IH in H. rewrite firstn_length in H.
+      unfold len in E. lia.
+    + destruct (len roots <=? i)%N; [discriminate|]. destruct (negb (mem r kn)); [discriminate|].
+      intros H. apply IH in H. rewrite set_nth_length in H. lia.
+    + destruct (N.min i j =? N.max i j)%N.
+      * destruct (len roots <=? N.min i j)%N; [discriminate|]. apply IH.
+      * destruct (len roots <=? N.max i j)%N; [discriminate|].
+        intros H. apply IH in H. rewrite !set_nth_length in H. lia.
+Qed.
+
+Lemma inv_revise_v1 c chs s s' : inv s -> revise_v1 c chs s = Ok s' -> inv s'.
+Proof.
+  intros I. unfold revise_v1. destruct (cget c false (cons s)) as [ct|] eqn:G; [|discriminate].
+  destruct (apply_changes _ _ _ _) as [[roots m]| |] eqn:A; cbn [bind]; try discriminate. intros [= <-].
+  apply apply_changes_len in A. apply (inv_refs s); cbn; auto.
+  - rewrite (csum_cupd c false _ _ ct G). cbn. rewrite (inv_contract s I) in A. lia.
+  - apply (inv_temp s I).
+Qed.
+
+Lemma inv_revise_v2 c new s s' : inv s -> revise_v2 c new s = Ok s' -> inv s'.
+Proof.
+  intros I. unfold revise_v2. destruct (cget c true (cons s)) as [ct|] eqn:G; [|discriminate].
+  destruct (negb _); [discriminate|].
+  destruct (stat_inc _ _) as [m| |] eqn:S; cbn [bind]; try discriminate. intros [= <-].
+  apply stat_inc_ok in S; subst m. apply (inv_refs s); cbn; auto.
+  - rewrite (csum_cupd c true _ _ ct G). cbn. rewrite (inv_contract s I). lia.
+  - apply (inv_temp s I).
+Qed.
+
+Lemma inv_renew old new v2 e n s s' : inv s -> renew old new v2 e n s = Ok s' -> inv s'.
+Proof.
+  intros I. unfold renew. destruct (cget new v2 (cons s)); [discriminate|].
+  destruct (cget old v2 (cons s)) as [oc|] eqn:G; [|discriminate]. intros [= <-].
+  apply (inv_refs s); cbn; auto.
+  - rewrite csum_app, (csum_cupd old v2 _ _ oc G). cbn. rewrite (inv_contract s I). unfold csum; cbn. lia.
+  - apply (inv_temp s I).
+Qed.
+
+Lemma inv_expire_cons v2 h s s' : inv s -> expire_cons v2 h s = Ok s' -> inv s'.
+Proof.
+  intros I. unfold expire_cons.
+  destruct (stat_inc _ _) as [m| |] eqn:S; cbn [bind]; try discriminate. intros [= <-].
+  apply stat_inc_ok in S; subst m. apply (inv_refs s); cbn; auto.
+  - rewrite (inv_contract s I). lia.
+  - apply (inv_temp s I).
+Qed.
+
+Lemma inv_drop_root c v2 pos h s s' : inv s -> drop_root c v2 pos h s = Ok s' -> inv s'.
+Proof.
+  intros I. unfold drop_root. destruct (cget c v2 (cons s)) as [ct|] eqn:G; [|now intros [= <-]].
+  destruct (exp_sel v2 h ct && (pos <? len (croots ct))%N) eqn:E; [|now intros [= <-]].
+  apply Bool.andb_true_iff in E as [_ E]. unfold len in E.
+  destruct (stat_inc _ _) as [m| |] eqn:S; cbn [bind]; try discriminate. intros [= <-].
+  apply stat_inc_ok in S; subst m. apply (inv_refs s); cbn; auto.
+  - rewrite (csum_cupd c v2 _ _ ct G). cbn. rewrite del_nth_length by lia. rewrite (inv_contract s I). lia.
+  - apply (inv_temp s I).
+Qed.
+
+(** * Prune *)
+Lemma prune_vols_ok f l l' n :
+  prune_vols f l = Ok (l', n) ->
+  map vid l' = map vid l /\ (Forall vol_ok l -> Forall vol_ok l') /\
+  gsum vused l' = gsum vused l - n /\ gsum vtotal l' = gsum vtotal l /\ 0 <= n /\
+  forall r, gcnt r l' <= gcnt r l.
+Proof.
+  revert l' n; induction l as [|vl t IH]; intros l' n; cbn [prune_vols].
+  - intros [= <- <-]. cbn. repeat split; auto; lia.
+  - destruct (vused vl - wsum (prunable f) (vslots vl) <? 0); [discriminate|].
+    destruct (prune_vols f t) as [[t' n']| |] eqn:P; cbn [bind]; try discriminate.
+    intros [= <- <-]. destruct (IH t' n' eq_refl) as [H1 [H2 [H3 [H4 [H5 H6]]]]].
+    pose proof (wsum_nonneg (prunable f) (vslots vl) (prunable_nonneg f)).
+    cbn. repeat split; try lia.
+    + now rewrite H1.
+    + intros HF; inversion HF as [|? ? [O1 [O2 O3]] HF']; subst. constructor; auto.
+      unfold vol_ok; cbn. rewrite pslots_keys, pslots_occ.
+      unfold pslots at 1 2. rewrite !map_length. repeat split; auto. lia.
+    + intros r. unfold gcnt in *. cbn. specialize (H6 r).
+      pose proof (pslots_le (is_root r) f (vslots vl) (is_root_nonneg r) eq_refl). lia.
+Qed.
+
+Lemma inv_prune all s s' : inv s -> prune all s = Ok s' -> inv s'.
+Proof.
+  intros I. unfold prune. destruct all; cbn [negb]; [|now intros [= <-]].
+  destruct (prune_vols (refd s) (vols s)) as [[vs n]| |] eqn:P; cbn [bind]; try discriminate.
+  destruct (stat_inc _ _) as [p| |] eqn:S; cbn [bind]; try discriminate. intros [= <-].
+  apply stat_inc_ok in S; subst p.
+  destruct (prune_vols_ok _ _ _ _ P) as [H1 [H2 [H3 [H4 [H5 H6]]]]].
+  destruct I as [I1 I2 I3 I4 I5 I6 I7 I8]. constructor; cbn; auto.
+  - now rewrite H1.
+  - intros r. specialize (H6 r). specialize (I3 r). unfold gcnt in *. lia.
+  - lia.
+  - lia.
+Qed.
+
+(** * Every step preserves the invariant *)
+Theorem inv_step s o : inv s -> inv (fst (step s o)).
+Proof.
+  intros I. destruct o; cbn [step].
+  - destruct (add_vol v ro s) eqn:E; cbn; [eapply inv_add_vol; eauto|exact I].
+  - apply fin_inv; auto. intros; eapply inv_grow; eauto.
+  - apply fin_inv; auto. intros; eapply inv_shrink; eauto.
+  - apply fin_inv; auto. intros; eapply inv_remove_vol; eauto.
+  - cbn. apply inv_set_flag; auto.
+  - cbn. apply inv_set_flag; auto.
+  - now apply inv_store.
+  - now apply inv_migrate.
+  - apply fin_inv; auto. intros; eapply inv_remove_sector; eauto.
+  - exact I.
+  - exact I.
+  - apply fin_inv; auto. intros; eapply inv_add_temps; eauto.
+  - apply fin_inv; auto. intros; eapply inv_add_temp1; eauto.
+  - apply fin_inv; auto. intros; eapply inv_expire_temp; eauto.
+  - apply fin_inv; auto. intros; eapply inv_add_contract; eauto.
+  - cbn. now apply inv_reject.
+  - apply fin_inv; auto. intros; eapply inv_revise_v1; eauto.
+  - apply fin_inv; auto. intros; eapply inv_revise_v2; eauto.
+  - apply fin_inv; auto. intros; eapply inv_renew; eauto.
+  - apply fin_inv; auto. intros; eapply inv_expire_cons; eauto.
+  - apply fin_inv; auto. intros; eapply inv_expire_cons; eauto.
+  - apply fin_inv; auto. intros; eapply inv_prune; eauto.
+  - exact I.
+  - apply fin_inv; auto. intros; eapply inv_drop_root; eauto.
+  - apply fin_inv; auto. intros; eapply inv_drop_temp; eauto.
+  - apply fin_inv; auto. intros; eapply inv_prune_one; eauto.
+  - apply fin_inv; auto. intros; eapply inv_migrate_one; eauto.
+Qed.
+
+Theorem inv_runs l : forall s, inv s -> inv (runs s l).
+Proof.
+  induction l as [|o t IH]; intros s I; [exact I|]. cbn. apply IH. now apply inv_step.
 Qed.
